@@ -365,7 +365,7 @@ Definition vg_to_index (off : Z) (s : shape) (lit : Z) : option idx :=
   else None.
 
 (* ---------- labels ---------- *)
-Definition print_Z (z : Z) : string := NilZero.string_of_int (Z.to_int z).
+Definition vg_print_Z (z : Z) : string := NilZero.string_of_int (Z.to_int z).
 
 (* str.format with automatic numbering: pieces p0 {} p1 {} ... pn; extra arguments ignored *)
 Fixpoint render (pieces : list string) (args : list string) : option string :=
@@ -386,8 +386,8 @@ Definition render_or_empty (pieces : list string) (args : list string) : string 
 Definition label_of_index (g : group) (i : idx) : string :=
   match g_shape g with
   | GSingle => match g_fmt g with p :: _ => p | [] => EmptyString end
-  | GWords _ _ _ => render_or_empty (g_fmt g) [String.concat "," (map print_Z i)]
-  | _ => render_or_empty (g_fmt g) (map print_Z i)
+  | GWords _ _ _ => render_or_empty (g_fmt g) [String.concat "," (map vg_print_Z i)]
+  | _ => render_or_empty (g_fmt g) (map vg_print_Z i)
   end.
 
 (* group.label() : labels of all the variables of the group, in identifier order *)
@@ -400,7 +400,7 @@ Inductive creation := Created | CrValueError | CrCrash.
 Definition fmt_ok (s : shape) (fmt : list string) : bool :=
   match s with
   | GSingle | BinMap _ _ => true
-  | GBlock ranges => match render fmt (map print_Z ranges) with Some _ => true | None => false end
+  | GBlock ranges => match render fmt (map vg_print_Z ranges) with Some _ => true | None => false end
   | GWords _ _ _ => match render fmt ["2"%string] with Some _ => true | None => false end
   | _ => match render fmt ["1"%string; "1"%string] with Some _ => true | None => false end
   end.
@@ -485,7 +485,7 @@ Fixpoint vm_trace (v : variant) (st : vstate) (ops : list op) : list (vstate * o
   end.
 
 (* ---------- all_variable_labels ---------- *)
-Definition default_label (dflt : list string) (v : Z) : string := render_or_empty dflt [print_Z v].
+Definition default_label (dflt : list string) (v : Z) : string := render_or_empty dflt [vg_print_Z v].
 Definition is_single (g : group) : bool := match g_shape g with GSingle => true | _ => false end.
 
 (* [fixD3 = false]: the code as it is — a singleton group is emitted without
